@@ -598,6 +598,7 @@ func main() {
 		searchSets(r, fam, md, &states, &trans, &samples)
 		searchStreamSets(r, fam, ssd, &states, &trans, &samples)
 	}
+	constructors(r, &states, &trans)
 	r.Cov["states"] = states
 	r.Cov["transitions"] = trans
 	r.Cov["traces_validated_against_impl"] = trans
